@@ -100,6 +100,8 @@ class DirectionMonitor(Monitor):
         ua = ev.utpm_args()
         if not ua:
             return
+        if not all(np.all(np.isfinite(c)) for (_, _, c) in ev.snaps):
+            self.ctx.skip('nonfinite-input'); return
         Ps = {c.shape[1] for (_, _, c) in ua}
         if len(Ps) != 1:
             self.ctx.skip('mixed-P'); return
@@ -109,6 +111,8 @@ class DirectionMonitor(Monitor):
         full = _datas(res if ev.name not in INPLACE else ev.args[0])
         if full is None:
             self.ctx.skip('no-utpm-result:' + ev.name); return
+        if not all(np.all(np.isfinite(a)) for a in full):
+            self.ctx.skip('nonfinite-result'); return
         f = getattr(ev.owner, ev.name)
         for p in range(P):
             args, kwargs = ev.rebuild(lambda c: c[:, p:p + 1].copy())
@@ -146,6 +150,8 @@ class TruncationMonitor(Monitor):
         ua = ev.utpm_args()
         if not ua:
             return
+        if not all(np.all(np.isfinite(c)) for (_, _, c) in ev.snaps):
+            self.ctx.skip('nonfinite-input'); return
         Ds = {c.shape[0] for (_, _, c) in ua}
         if len(Ds) != 1:
             self.ctx.skip('mixed-D'); return
@@ -157,6 +163,8 @@ class TruncationMonitor(Monitor):
         full = _datas(res if ev.name not in INPLACE else ev.args[0])
         if full is None:
             self.ctx.skip('no-utpm-result:' + ev.name); return
+        if not all(np.all(np.isfinite(a)) for a in full):
+            self.ctx.skip('nonfinite-result'); return
         f = getattr(ev.owner, ev.name)
         orders = range(1, D) if self.all_orders else sorted({1, D - 1, 1 + (D * 7919) % (D - 1)})
         for Dp in orders:
